@@ -1923,6 +1923,10 @@ def remove_dead_ifs(source: str) -> str:
             else:
                 continue
 
+            if core.get_code(node, source).startswith("elif"):
+                # Dedenting the live branch of an elif would make it run after the earlier branches too.
+                continue
+
             ranges = [core.get_charnos(child, source) for child in remove]
             start = min((s for (s, _) in ranges))
             end = max((e for (_, e) in ranges))
